@@ -446,6 +446,15 @@ func (g *gen) loopModifiesExcl(e *env, ls *LoopSpec, ord int) (map[string][]stri
 	excl := map[string][]string{}
 	whole := map[string]bool{}
 	for _, ml := range ls.Modifies {
+		if strings.HasPrefix(ml.All, "cells(") {
+			if name, srt, ok := g.cellsVar(ml.All, g.fs.PkgPath, g.fs.Imports); ok {
+				g.noteVar(name, srt)
+				whole[name] = true
+			} else {
+				g.errorf("%s: loop %d modifies %s: cannot resolve type", g.name, ord, ml.Src)
+			}
+			continue
+		}
 		if ml.All == "elems" {
 			v, xt, err := e.tr(ml.E)
 			if err != nil || xt.T == nil {
